@@ -97,7 +97,7 @@ class C12(C.PipelineCheck):
 
     def mutant_scenarios(self, tier, name):
         for j in self.scenarios('quick'):
-            if j[0] in ('placement/if-else', 'placement/emit_to', 'name/2', 'payload/param', 'two-names/1-1', 'placement/while'):
+            if j[0] in ('placement/if-else', 'placement/emit_to', 'name/2', 'payload/param', 'payload/literals', 'two-names/1-1', 'placement/while'):
                 yield j
 
     # -- reading ---------------------------------------------------------------------------------
